@@ -417,7 +417,19 @@ func TestTlvShapes(t *testing.T) {
 			}
 			nb := full.Bytes()
 			back, berr := enc.NameFromBytes(nb)
-			ev["nameBytesSame"] = bytes.Equal(nb, raw[nameEl.start:nameEl.val+nameEl.l]) && berr == nil && back.Equal(full)
+			same := bytes.Equal(nb, raw[nameEl.start:nameEl.val+nameEl.l]) && berr == nil && back.Equal(full)
+			// the standalone component encoder / decoders agree with the packet encoder component by component
+			off := nameEl.val
+			for _, c := range full {
+				cb := c.Bytes()
+				same = same && off+len(cb) <= len(raw) && bytes.Equal(cb, raw[off:off+len(cb)]) && c.EncodingLength() == len(cb)
+				c1, used := enc.ParseComponent(cb)
+				c2, err2 := enc.ComponentFromBytes(cb)
+				c3, err3 := enc.ReadComponent(enc.NewBufferReader(cb))
+				same = same && used == len(cb) && c1.Equal(c) && err2 == nil && c2.Equal(c) && err3 == nil && c3.Equal(c)
+				off += len(cb)
+			}
+			ev["nameBytesSame"] = same && off == nameEl.val+nameEl.l
 			// ranges found in the produced bytes
 			find := func(t uint64) *elem {
 				for i := range kids {
